@@ -253,6 +253,18 @@ Fixpoint var_set (vs : list (str * slot)) (n : str) (v : slot) : option (list (s
 
 Definition underscore : str := [95%N].
 
+(* block scopes inside the flat table: PushScope puts a mark entry (a name no identifier can have) in front;
+   names are resolved innermost first (var_get / var_set take the first entry), a declaration only looks at the
+   entries in front of the nearest mark, PopScope removes the entries up to and including it *)
+Definition scope_mark : str := [0%N].
+Fixpoint var_local (vs : list (str * slot)) (n : str) : option slot :=
+  match vs with
+  | [] => None
+  | (k, v) :: r => if str_eqb k scope_mark then None else if str_eqb k n then Some v else var_local r n
+  end.
+Fixpoint pop_scope (vs : list (str * slot)) : option (list (str * slot)) :=
+  match vs with [] => None | (k, _) :: r => if str_eqb k scope_mark then Some r else pop_scope r end.
+
 (* Context.checkType + set, for a value popped from the stack *)
 Definition do_store (m : mode) (s : st) (n : str) (x : value * bool) : st + fail :=
   let chk := match var_get (vars s) n with
@@ -338,9 +350,15 @@ Definition exec (fx : fixes) (m : mode) (i : instr) (s : st) : xres :=
       end
   | (SymbolCreate, OV (VStr n)) =>
       (* symbolCreateByteCode: c.create(name) fails when the (single, flat) scope already has the name *)
-      match var_get (vars s) n with
+      match var_local (vars s) n with
       | Some _ => XFail (err_at s RExists)
       | None => XCont (set_vars s ((n, SUndef) :: vars s)) None
+      end
+  | (PushScope, _) => XCont (set_vars s ((scope_mark, SUndef) :: vars s)) None
+  | (PopScope, ONil) =>
+      match pop_scope (vars s) with
+      | Some vs => XCont (set_vars s vs) None
+      | None => oom                               (* leaving the function's own scope: outside the model *)
       end
   | (Store, OV (VStr n)) =>
       match stk s with
